@@ -154,8 +154,9 @@ SetNodesOK(sres) ==
 PkOfEpoch(ec, k, sh) == IF FindInS(ec.wait, k, sh) # {} THEN CHOOSE s \in FindInS(ec.wait, k, sh) : TRUE
                         ELSE CHOOSE s \in FindInS(ec.elig, k, sh) : TRUE
 FillPkS(c, sh) ==
-    LET ks == UNION {KeysInS(c[e], sh) : e \in DOMAIN c}
-    IN  [k \in ks |-> PkOfEpoch(c[MaxOf({e \in DOMAIN c : k \in KeysInS(c[e], sh)})], k, sh)]
+    LET ke == [e \in DOMAIN c |-> KeysInS(c[e], sh)]
+        ks == UNION {ke[e] : e \in DOMAIN c}
+    IN  [k \in ks |-> PkOfEpoch(c[MaxOf({e \in DOMAIN c : k \in ke[e]})], k, sh)]
 FillPk(c) == FillPkS(c, Shards)
 
 Lookup(idx, k) == IF k \in DOMAIN idx THEN idx[k] ELSE NF
